@@ -17,6 +17,17 @@ def _is_value_none(body, op):
     return o is not None and o.kind == 'agg' and o.data[2].get('adt') == VALUE and o.data[2].get('variant') == 'None'
 
 
+def _setter_edges(b, bb, setter_idx, n_variants):
+    """edges of the switch on the operator type taken exactly for SETTER: its listed arm, or `otherwise` when every
+    other variant is listed (`if matches!(ty, InfixOpType::CALC) { return .. }` leaves SETTER to the fall-through)"""
+    t = b.blocks[bb]['term']
+    listed = [v for v, _ in t['targets']]
+    out = [(v, tb) for v, tb in t['targets'] if v == setter_idx]
+    if not out and setter_idx not in listed and sorted(listed) == [i for i in range(n_variants) if i != setter_idx]:
+        out = [('otherwise', t['otherwise'])]
+    return out
+
+
 def rule_wctx(prog, em):
     obs = []
     writers = [(b, c) for b in em.bodies for c in em.ctx_writes(b) if em.child_sites(b) or em.handler_sites(b)]
@@ -56,15 +67,13 @@ def rule_wctx(prog, em):
                 if len(defs) == 1 and defs[0][2] == 'assign' and defs[0][3]['k'] == 'discr':
                     o = _optype_source(b, defs[0][3]['pl'])
                     if o is not None:
-                        for v, tb in switch_edges(b, bb):
-                            if v == setter_idx:
-                                sedge = (bb, tb, o.data)
+                        for v, tb in _setter_edges(b, bb, setter_idx, len(names)):
+                            sedge = (bb, tb, o.data)
             elif o.kind == 'discr':
                 oo = _optype_source(b, o.data[2]['pl'])
                 if oo is not None:
-                    for v, tb in switch_edges(b, bb):
-                        if v == setter_idx:
-                            sedge = (bb, tb, oo.data)
+                    for v, tb in _setter_edges(b, bb, setter_idx, len(names)):
+                        sedge = (bb, tb, oo.data)
         if sedge is None:
             problems.append('no switch on the operator type (CALC / SETTER) found')
         elif not edge_dominates(b, sedge[0], sedge[1], w.bb):
